@@ -1,12 +1,12 @@
 """C20 -- exception safety: every helper x every length x every failing index, event lists compared with ExcSafety.create_array."""
 import subprocess
-from vlib import build
+from vlib import proc, build
 
 
 def gen_lines(thorough):
     u = []; j = []
     maxn = 64 if thorough else 16
-    for helper in ('array', 'anyarray'):
+    for helper in ('array', 'anyarray', 'arraynm', 'anyarraynm'):
         for leaf in ('up', 'pool'):
             for n in range(0, maxn + 1):
                 for t in range(-1, n):
@@ -77,7 +77,7 @@ def run(ctx):
     tot = {}; nj = 0
     for c in ['base', 'dbg8']:
         exe = build.build_harness('exc', c, ['h_exc.cpp'])
-        out = subprocess.run([exe], input='\n'.join(u) + '\n', stdout=subprocess.PIPE, stderr=subprocess.PIPE, text=True)
+        out = proc.run([exe], input='\n'.join(u) + '\n', timeout=300)
         if out.returncode != 0:
             ctx.tie_broken.append('exception harness exit %d in %s: %s' % (out.returncode, c, out.stderr[-200:]))
             done = len([l for l in out.stdout.split('\n') if l.startswith('u ')])
@@ -96,7 +96,7 @@ def run(ctx):
                         case = ln.split('::')[1].split('=')[0].strip()
                         ctx.violation('%s/%s' % (case, c), 'C20 fails on the implementation: %s' % ln[8:260], dict(harness='h_exc.cpp', config=c, input=case))
         exj = build.build_harness('joint', c, ['h_joint.cpp'])
-        outj = subprocess.run([exj], input='\n'.join(j) + '\n', stdout=subprocess.PIPE, stderr=subprocess.PIPE, text=True)
+        outj = proc.run([exj], input='\n'.join(j) + '\n', timeout=300)
         if outj.returncode != 0:
             ctx.tie_broken.append('joint harness exit %d in %s' % (outj.returncode, c))
             done = len([l for l in outj.stdout.split('\n') if l.startswith(('j ', 'r '))])
